@@ -345,6 +345,31 @@ def run(ctx):
                          {**base, 'ty': ty, 'vol_second_call': float(model2.volatility) if hasattr(model2, 'volatility') else None,
                           'reused': a, 'fresh': b, 'keys': DELTA_KEYS + VALUE_KEYS}, 'reuse:fresh-object')
 
+        # ---- strike re-set on an existing object: the library's own surface code (FXVolSurface / FXVolSurfacePlus
+        # check_calibration and the strangle solvers) builds one call / put and assigns `strike_fx_rate` before each
+        # valuation; the premium views must then be those of an option constructed with that strike (seed C10-11: the
+        # notional split computed once in the constructor)
+        if ci % 3 == 1:
+            K2 = K * rng.choice([0.7, 0.9, 1.1, 1.6])
+            cnt['reuse'] = cnt.get('reuse', 0) + 2
+            for ty in (1, 2):
+                moved = FXVanillaOption(ed, K, pair, OT[ty], notional, prem, sd)
+                fresh = FXVanillaOption(ed, K2, pair, OT[ty], notional, prem, sd)
+                try:
+                    moved.value(vd, S, dom, forc, model)
+                    moved.strike_fx_rate = K2
+                    vu, vf = moved.value(vd, S, dom, forc, model), fresh.value(vd, S, dom, forc, model)
+                    du, df_ = moved.delta(vd, S, dom, forc, model), fresh.delta(vd, S, dom, forc, model)
+                    a = [float(du[k]) for k in DELTA_KEYS] + [float(vu[k]) for k in VALUE_KEYS]
+                    b = [float(df_[k]) for k in DELTA_KEYS] + [float(vf[k]) for k in VALUE_KEYS]
+                except Exception as e:  # noqa: BLE001
+                    a, b = err_kind(e), None
+                if a != b:
+                    viol(ctx, 'an FXVanillaOption whose strike_fx_rate was re-assigned (as the vol-surface code does) differs from an '
+                              'option constructed with that strike: premium views not converted at the current strike',
+                         {**base, 'ty': ty, 'strike_at_construction': K, 'strike_assigned': K2, 'reassigned': a, 'fresh': b,
+                          'keys': DELTA_KEYS + VALUE_KEYS}, 'reuse:strike-reassigned')
+
         # ---- premium views are one number (pure relations between the returned keys)
         for ty in (1, 2):
             r = vals[ty]
